@@ -380,6 +380,33 @@ func (m *Manager) SetMode(mode Mode) error {
 		}
 	}
 
+	// The program uses the mode stored in a subscriber's binding when there is
+	// one: carry the new mode into the existing bindings as well.
+	if m.bindings != nil {
+		type entry struct {
+			key uint64
+			val SubscriberBinding
+		}
+		var entries []entry
+		var key uint64
+		var val SubscriberBinding
+		it := m.bindings.Iterate()
+		for it.Next(&key, &val) {
+			entries = append(entries, entry{key, val})
+		}
+		for _, e := range entries {
+			e.val.Mode = uint8(mode)
+			if err := m.bindings.Put(&e.key, &e.val); err != nil {
+				return fmt.Errorf("failed to update binding mode: %w", err)
+			}
+		}
+	}
+	m.subscribersMu.Lock()
+	for _, b := range m.subscribers {
+		b.Mode = mode
+	}
+	m.subscribersMu.Unlock()
+
 	m.logger.Info("Anti-spoofing mode changed",
 		zap.String("mode", modeName(mode)),
 	)
